@@ -21,7 +21,7 @@ import types
 import z3
 
 from . import solver
-from .errors import BreakSignal, ContinueSignal, PathEnd, PyRaise, ReturnSignal, Unsupported
+from .errors import BreakSignal, ContinueSignal, LoopCut, PathEnd, PyRaise, ReturnSignal, Unsupported
 from .values import (
     NativeSuper,
     Opaque,
@@ -116,6 +116,7 @@ class LazyGen:
 
         if self.done:
             raise StopIteration
+        self.it.stack.append(self.f.qualname)  # the generator body runs (in its own, strictly alternating thread) as a frame of this function
         if self.thread is None:
             self.thread = threading.Thread(target=self._run, daemon=True)
             self.thread.start()
@@ -123,6 +124,7 @@ class LazyGen:
             self.resume_evt.set()
         self.yield_evt.wait()
         self.yield_evt.clear()
+        self.it.stack.pop()
         if self.exc is not None:
             self.done = True
             e, self.exc = self.exc, None
@@ -219,6 +221,7 @@ class Interp:
         self.depth = 0
         self.max_depth = 120
         self.loop_limit = 200
+        self.loop_cut = {}  # function qualname -> number of iterations after which its `while` loop is cut (invariant mode)
         self.pc, self.dec, self.pos, self.work = [], [], 0, []
         self.stack = []
         self.trace_calls = False
@@ -243,6 +246,8 @@ class Interp:
                 results.append(PathResult(list(self.pc), "return", v, list(self.events), list(self.writes), self.approx))
             except PyRaise as e:
                 results.append(PathResult(list(self.pc), "raise", e.exc, list(self.events), list(self.writes), self.approx))
+            except LoopCut as e:
+                results.append(PathResult(list(self.pc), "cut", e, list(self.events), list(self.writes), self.approx))
             except PathEnd:
                 continue
             finally:
@@ -592,7 +597,9 @@ class Interp:
 
     def contains(self, container, item):
         if isinstance(container, SymDict):
-            return SBool(z3.Select(container.present, self.dict_key(item)))
+            from .models.containers import present
+
+            return SBool(present(container, self.dict_key(item)))
         if isinstance(container, PObj):
             f = container.cls.find("__contains__")
             if isinstance(f, PFunc):
@@ -1115,7 +1122,7 @@ class Interp:
             or (isinstance(slf, list) and fn.__name__ in ("append", "pop", "extend", "insert", "reverse", "copy", "clear"))
             or (isinstance(slf, (dict, collections.ChainMap)) and fn.__name__ in ("get", "pop", "update", "items", "keys", "values", "setdefault", "copy", "popitem", "clear", "move_to_end"))
             or (isinstance(slf, set) and fn.__name__ in ("add", "discard", "update") and all(not isinstance(a, Sym) for a in allv))
-            or isinstance(fn, types.FunctionType) and fn.__code__.co_filename.startswith(VERIF_DIR)  # contract-level helper written in Python (never a library function)
+            or isinstance(getattr(fn, "__func__", fn), types.FunctionType) and getattr(fn, "__func__", fn).__code__.co_filename.startswith(VERIF_DIR)  # contract-level helper / model object written in Python (never a library function)
         )
         if shape_only or all(self.concrete(a) for a in allv):
             if isinstance(slf, dict) and fn.__name__ in ("get", "pop", "setdefault", "__getitem__") and args and not self.concrete(args[0]):
@@ -1270,6 +1277,9 @@ class Interp:
             n = 0
             while self.truth(self.eval(s.test, env, mod)):
                 n += 1
+                cut = self.loop_cut.get(self.stack[-1]) if self.stack and self.loop_cut else None
+                if cut is not None and n > cut:
+                    raise LoopCut(self.stack[-1], cut)
                 if n > self.loop_limit:
                     raise Unsupported("loop without invariant exceeded the unrolling limit")
                 try:
@@ -1513,7 +1523,9 @@ class Interp:
     def getitem(self, o, k):
         if isinstance(o, SymDict):
             kt = self.dict_key(k)
-            self.require(z3.Select(o.present, kt), KeyError("<symbolic>"))
+            from .models.containers import present
+
+            self.require(present(o, kt), KeyError("<symbolic>"))
             return self.symdict_value(o, kt)
         if isinstance(o, PObj):
             f = o.cls.find("__getitem__")
@@ -1548,9 +1560,18 @@ class Interp:
             raise PyRaise(e)
 
     def symdict_value(self, d, kt):
+        from .models.containers import key_eq
+
         for k2, v in reversed(d.stores):
-            if z3.is_true(z3.simplify(k2 == kt)):
+            eq = key_eq(k2, kt)
+            if z3.is_true(eq):
                 return v
+            if z3.is_false(eq):
+                continue
+            if self.branch(eq):
+                return v
+        if d.default is not None:
+            return d.default
         return Opaque("dictval", z3.Select(d.value, kt))
 
     # ------------------------------------------------------------------ expressions
